@@ -580,10 +580,13 @@ def gen_wire(rng, client=False):
     if not kex:
         kex = ['curve25519-sha256']
     key = rng.sample(WIRE_KEYS, rng.choice([1, 2, 3, 4, 6]))
-    w = dict(banner=rng.choice(['SSH-2.0-OpenSSH_9.6', 'SSH-2.0-OpenSSH_8.9p1 Ubuntu-3ubuntu0.6', 'SSH-2.0-dropbear_2022.83', 'SSH-2.0-libssh_0.9.6']),
+    w = dict(banner=rng.choice(['SSH-2.0-OpenSSH_9.6', 'SSH-2.0-OpenSSH_8.9p1 Ubuntu-3ubuntu0.6', 'SSH-2.0-dropbear_2022.83', 'SSH-2.0-libssh_0.9.6', 'SSH-2.0-OpenSSH_for_Windows_9.5']),
              kex=kex, key=key, enc=rng.sample(WIRE_ENC, rng.choice([1, 2, 4])), mac=rng.sample(WIRE_MAC, rng.choice([1, 2, 3])),
              rsa_bits=rng.choice(RSA_BITS), cert_bits=rng.choice(RSA_BITS), ca_kind=rng.choice(['rsa', 'ed25519']), ca_bits=rng.choice(RSA_BITS),
              gex_bits=rng.choice(GEX_BITS), client=client)
+    # OpenSSH-style servers answer requests they have no modulus for with a built-in fallback group instead of refusing; the tool's follow-up
+    # request recovers the configured size for every peer that calls itself OpenSSH (whatever follows the name in the banner)
+    w['gex_style'] = 'openssh_fallback' if ('OpenSSH' in w['banner'] and w['gex_bits'] >= 3072 and rng.random() < 0.6) else 'strict'
     return w
 
 
@@ -603,8 +606,10 @@ def wire_spec(w):
         elif t == 'ecdsa-sha2-nistp256':
             hk[t.encode()] = P.ecdsa_blob()
     bits = w['gex_bits']
+    from props import c12
+    style = w.get('gex_style', 'strict')
     return dict(banner=w['banner'].encode(), kex=w['kex'], key=w['key'], enc=w['enc'], mac=w['mac'], hostkeys=hk,
-                gex=lambda mn, pf, mx: bits if mn <= bits <= mx else None)
+                gex=lambda mn, pf, mx: c12.py_serve(style, [bits], mn, pf, mx))
 
 
 def probing_possible(w):
@@ -736,8 +741,9 @@ def e2e_case(z, case):
 
 
 def builtin_case(z, case):
-    name, p = case
-    w = dict(banner='SSH-2.0-OpenSSH_9.9', kex=list(p['kex']), key=list(p['host_keys']), enc=list(p['ciphers']), mac=list(p['macs']),
+    name, p = case[0], case[1]
+    variant = case[2] if len(case) > 2 else 0
+    w = dict(banner=('SSH-2.0-OpenSSH_9.9', 'SSH-2.0-OpenSSH_for_Windows_9.5')[variant], gex_style=('strict', 'openssh_fallback')[variant], kex=list(p['kex']), key=list(p['host_keys']), enc=list(p['ciphers']), mac=list(p['macs']),
              rsa_bits=4096, cert_bits=4096, ca_kind='rsa', ca_bits=4096, gex_bits=3072, client=not p['server_policy'])
     for t, d in (p['hostkey_sizes'] or {}).items():
         if t in RSA_FAMILY and t in w['key']:
@@ -831,7 +837,9 @@ def run_e2e(ctx, n_cases, n_pert):
             lists = [pz for pz in perts if pz[0][:3] in ('kex', 'key', 'enc', 'mac')]
             rng.shuffle(lists)
             cases.append((tmp, i, w, (pick + lists)[:n_pert] if i % 2 else (lists + pick)[:n_pert]))
-        bcases = list(BUILTIN_POLICIES.items())
+        bcases = [(k, v, 0) for k, v in BUILTIN_POLICIES.items()]
+        # the same peers as an OpenSSH build whose banner does not continue with a version number, serving the configured modulus the OpenSSH way (fallback group for requests it cannot satisfy)
+        bcases += [(k, v, 1) for k, v in BUILTIN_POLICIES.items() if v['server_policy'] and v['dh_modulus_sizes']]
         with runner.Pool(min(8, common.NCPU)) as pool:
             results = pool.map(e2e_case, cases)
             bresults = pool.map(builtin_case, bcases)
@@ -850,18 +858,18 @@ def run_e2e(ctx, n_cases, n_pert):
                     for key, what, rp in v:
                         if key in keys2:
                             ctx.violation(key, what, rp)
-            for (name, p), (w, res) in zip(bcases, bresults):
+            for (name, p, variant), (w, res) in zip(bcases, bresults):
                 n += 1
-                nontriv.add(('builtin-e2e', p['server_policy'], res['rc']))
+                nontriv.add(('builtin-e2e', p['server_policy'], res['rc'], variant))
                 v = judge_builtin(name, p, w, res)
                 if v:
                     reruns += 1
-                    w2, res2 = builtin_case(pool.zs[0], (name, p))
+                    w2, res2 = builtin_case(pool.zs[0], (name, p, variant))
                     if judge_builtin(name, p, w2, res2):
                         ctx.violation(*v[0])
     finally:
         shutil.rmtree(tmp, ignore_errors=True)
-    ctx.extra['e2e'] = {'cases': n_cases, 'cli_runs': sum(3 + len(c[3]) for c in cases) + len(BUILTIN_POLICIES), 'builtin': len(BUILTIN_POLICIES), 'confirmation_reruns': reruns}
+    ctx.extra['e2e'] = {'cases': n_cases, 'cli_runs': sum(3 + len(c[3]) for c in cases) + len(bcases), 'builtin': len(bcases), 'confirmation_reruns': reruns}
     ctx.cover(n, nontriv, [{'wire': cases[0][2], 'perturbations': [pz[0] for pz in cases[0][3]]}] if cases else [],
               'end to end: `-M file` against a scripted TCP peer (servers answering host-key and group-exchange probes with RSA / Ed25519 / certificate blobs and a modulus; '
               'clients for client audits), a second -M (must refuse), `-P file` against the same peer and against single-attribute perturbations (list add / remove / reorder, RSA key size, '
